@@ -726,7 +726,7 @@ def stream_guarded(ck, scratch):
 # (b) result registry
 # ------------------------------------------------------------------------------------------------
 NAMES5 = ["a", "ab", "a_run", "a_run_b", "a.b"]
-NAMES7 = NAMES5 + ["a_run_0000", "a_b"]
+NAMES7 = NAMES5 + ["a_run_0000", "a_b", "a_run_2024_b"]   # the last: a run specifier *inside* the name (seeded C18-1)
 UNIVERSE = NAMES7 + ["a_run_0001", "a_run_b_run_0000", "a.b_run_0000", "a_run_0000_run_0000", "zz", "a_run_00000", "a_run_000",
                      "_run_0000", "ab_run_0000", "a_run", "a_run_"]
 
@@ -1046,6 +1046,8 @@ CORPUS_BUILTIN = [
     [("opt", "a"), ("opt", "a"), ("opt", "a_run_b"), ("opt", "a")],
     # dotted name (fixed): Path.stem cut "a.b_run_0000" at the dot
     [("opt", "a.b"), ("opt", "a.b"), ("opt", "a")],
+    # a name with a run specifier inside it is not stripped: latest of "a_run_2024_b" is not a run of "a_b"
+    [("opt", "a_run_2024_b"), ("opt", "a_b"), ("opt", "a_b"), ("opt", "a_run_2024_b")],
     # latest lookup with a run specifier (fixed): the whole name was removed
     [("opt", "a"), ("opt", "a")],
     # a result that is called like a run of another one
